@@ -311,9 +311,24 @@ func stripConv(v ssa.Value) ssa.Value {
 // globals, field selections, static calls and constants. Unknown shapes render as "?<kind>".
 func accessPath(v ssa.Value) string { return accessPathD(v, 0) }
 
+// pathEnv substitutes values (typically callee parameters bound to caller-side paths) while rendering.
+var pathEnv map[ssa.Value]string
+
+func withPathEnv(env map[ssa.Value]string, f func()) {
+	old := pathEnv
+	pathEnv = env
+	defer func() { pathEnv = old }()
+	f()
+}
+
 func accessPathD(v ssa.Value, depth int) string {
 	if depth > 12 {
 		return "?deep"
+	}
+	if pathEnv != nil {
+		if s, ok := pathEnv[v]; ok {
+			return s
+		}
 	}
 	switch x := v.(type) {
 	case nil:
@@ -367,6 +382,9 @@ func accessPathD(v ssa.Value, depth int) string {
 			return x.Op.String() + accessPathD(x.X, depth+1)
 		}
 	case *ssa.BinOp:
+		if ph, ok := x.X.(*ssa.Phi); ok && ph.Comment == "rangeindex" && x.Op == token.ADD {
+			return "$idx"
+		}
 		return "(" + accessPathD(x.X, depth+1) + " " + x.Op.String() + " " + accessPathD(x.Y, depth+1) + ")"
 	case *ssa.ChangeType:
 		return accessPathD(x.X, depth+1)
@@ -396,6 +414,9 @@ func accessPathD(v ssa.Value, depth int) string {
 		}
 		return calleeDesc(x) + "(" + strings.Join(args, ",") + ")"
 	case *ssa.Phi:
+		if x.Comment == "rangeindex" {
+			return "$idx"
+		}
 		var es []string
 		for _, e := range x.Edges {
 			if e == v {
@@ -756,4 +777,53 @@ func allocSingleStore(al *ssa.Alloc) ssa.Value {
 		return v
 	}
 	return nil
+}
+
+// constName finds the name of the package-level constant of named type T with integer value val.
+func constName(T types.Type, val int64) string {
+	n, ok := T.(*types.Named)
+	if !ok || n.Obj().Pkg() == nil {
+		return fmt.Sprint(val)
+	}
+	sc := n.Obj().Pkg().Scope()
+	for _, nm := range sc.Names() {
+		if c, ok := sc.Lookup(nm).(*types.Const); ok && types.Identical(c.Type(), T) {
+			if v, ok := constant.Int64Val(c.Val()); ok && v == val {
+				return nm
+			}
+		}
+	}
+	return fmt.Sprint(val)
+}
+
+// constArgName renders a constant argument by its declared name when it has a named type.
+func constArgName(v ssa.Value) string {
+	if c, ok := v.(*ssa.Const); ok && c.Value != nil {
+		if i, ok := constInt(c); ok {
+			return constName(c.Type(), i)
+		}
+	}
+	return accessPath(v)
+}
+
+// resolve looks through conversions and through loads of local allocations that have exactly one store
+// (variables spilled to the heap because a closure captures them).
+func resolve(v ssa.Value) ssa.Value {
+	for i := 0; i < 8; i++ {
+		v = stripConv(v)
+		u, ok := v.(*ssa.UnOp)
+		if !ok || u.Op != token.MUL {
+			return v
+		}
+		al, ok := u.X.(*ssa.Alloc)
+		if !ok {
+			return v
+		}
+		sv := allocSingleStore(al)
+		if sv == nil {
+			return v
+		}
+		v = sv
+	}
+	return v
 }
